@@ -644,6 +644,15 @@ func derivesFromCallArgs(p *Prog, v ssa.Value, pred func(ssa.Value) bool) bool {
 			}
 		case *ssa.Field:
 			return rec(x.X, d+1)
+		case *ssa.Parameter:
+			// a pure helper that is handed the value (parse(describe())): what its callers hand it
+			if acts := p.paramActuals(x); len(acts) > 0 && len(acts) <= 8 {
+				for _, a := range acts {
+					if rec(a, d+1) {
+						return true
+					}
+				}
+			}
 		case *ssa.BinOp:
 			return rec(x.X, d+1) || rec(x.Y, d+1)
 		case *ssa.UnOp:
